@@ -6,6 +6,9 @@ CHECKERS = dict(C09_rt.CHECKERS)
 
 
 def run(ctx):
+    from contracts import wrap_vc
+
+    api.run_vcs(ctx, wrap_vc.wrapper_vcs("C09.P.module_forwards_parameters", ['PadVariable', 'PadMaskedSequence', 'ChunkBySlices']), {"C09.P.module_forwards_parameters": wrap_vc.TEXT % "PadVariable, PadMaskedSequence, ChunkBySlices"})
     from vf.pyvc import crosscheck_sym
 
     crosscheck_sym.guard(ctx)  # the symbolic-shape tensor layer against real torch, before the clause that rests on it
